@@ -48,7 +48,7 @@ def run(tier):
     res.assumptions = list(_e2.ASSUME) + [
         '"finite time" is decided as: no deadlock, no horizon overrun and no live logical thread at the end of every explored schedule']
     cfgs = configs(tier)
-    _e2.run_matrix('C05', 'oracle_stop', [(c, 'P', None) for c in cfgs], res, 'mode P, all schedules', cap=80000)
+    _e2.run_matrix('C05', 'oracle_stop', [(c, 'D', None) for c in cfgs], res, 'mode D (DPOR + sleep sets), all schedules', cap=80000)
     lcfgs = [dict(c, sync_events=[]) for c in cfgs
              if c['backend'] == 't' and c['n'] == 3 and not c.get('fail_fn') and not c.get('fail_src')
              and c['consumers'][0][0] == 'close' and (c['w'] == 1 or (tier == 'thorough' and c['b'] == 2))]
